@@ -109,6 +109,11 @@ def run_c11(tier, seed):
     for s in seeds[:6 if tier == "quick" else len(seeds)]:
         for n in range(0, len(s), step):
             inputs.append(("char-prefix", s[:n]))
+    # the same with comments that contain CR / FF (line boundaries for str.splitlines, not for FCP), also without final newline
+    for s in by_kind.get("unmutated-xc", [])[:3 if tier == "quick" else 100]:
+        for n in range(0, len(s), step + 1):
+            inputs.append(("char-prefix-xc", s[:n]))
+            inputs.append(("char-prefix-xc", s[:n] + "\u2028"))
     nrand = 600 if tier == "quick" else 20000
     for _ in range(nrand):
         inputs.append(("random", rand_text(rng, seeds or ['version: "3"\n'])))
@@ -151,7 +156,7 @@ def run_c11(tier, seed):
         chk.distinct(text)
         cl = verd[e["id"]]
         # (the in-memory entry point cannot read module files: seeds with `mod` legitimately return an error)
-        if kind == "unmutated" and e["outcome"] != "ok" and " mod " not in text:
+        if kind in ("unmutated", "unmutated-xc") and e["outcome"] != "ok" and " mod " not in text and "mod" not in text.split(";")[0][-40:]:
             chk.violation("parser:rejected-well-formed-seed", {"text": text, "outcome": e["outcome"], "detail": detail})
         if cl != "ok":
             exc = detail.split(":")[0] if e["outcome"] == "raised" else ""
